@@ -139,10 +139,12 @@ var fields = map[string]field{
 		seconds(b, e.End.Sub(e.Start), time.Nanosecond, 9)
 	},
 	"$time_unix_ms": func(b *bytes.Buffer, e *Event) {
-		atoi(b, e.End.UnixNano()/int64(time.Millisecond), 0)
+		// not UnixNano()/1e6: that rounds times before the epoch up
+		// and overflows outside of the years 1678..2262
+		atoi(b, e.End.UnixMilli(), 0)
 	},
 	"$time_unix_us": func(b *bytes.Buffer, e *Event) {
-		atoi(b, e.End.UnixNano()/int64(time.Microsecond), 0)
+		atoi(b, e.End.UnixMicro(), 0)
 	},
 	"$time_unix_ns": func(b *bytes.Buffer, e *Event) {
 		atoi(b, e.End.UnixNano(), 0)
